@@ -100,7 +100,7 @@ def presentations(draw, allow_supercell=True, allow_lefthanded=True, identity_ok
 
 
 @st.composite
-def crystal_descs(draw, sgs=None, max_orbits=3, force_letters=None, anchor=None, species=None):
+def crystal_descs(draw, sgs=None, max_orbits=3, force_letters=None, anchor=None, species=None, salt=0):
     sg = draw(st.integers(1, 230)) if sgs is None else draw(st.sampled_from(list(sgs)))
     ls = letters(sg)
     cm = spgref.CENTRING_MULT[spgref.centring(sg)]
@@ -132,9 +132,9 @@ def crystal_descs(draw, sgs=None, max_orbits=3, force_letters=None, anchor=None,
         if m > budget and orbits:
             continue
         budget -= m
-        k0 = 3 * len(orbits)
+        k0 = 3 * len(orbits) + 24 * salt
         orbits.append({"letter": l, "q": [gc.generic(draw, k0 + j, 0.05, 0.95) for j in range(3)], "Z": z})
-    raw = [gc.generic(draw, 17 + j, 3.5, 9.0) for j in range(3)] + [gc.generic(draw, 20 + j, 75.0, 105.0) for j in range(3)]
+    raw = [gc.generic(draw, 17 + j + 24 * salt, 3.5, 9.0) for j in range(3)] + [gc.generic(draw, 20 + j + 24 * salt, 75.0, 105.0) for j in range(3)]
     return {"sg": sg, "orbits": orbits, "raw": raw}
 
 
@@ -165,15 +165,22 @@ def dedupe(frac, Z, tol=1e-6):
     return np.array(keep, int)
 
 
-def build_standard(desc, primitive="auto"):
+def _shifted_q(q, k, j):
+    """deterministic alternative parameters for retry j of orbit k (still generic, still a function of the descriptor only)"""
+    if j == 0:
+        return q
+    return [0.05 + 0.9 * (((x - 0.05) / 0.9 + gc.PHI[(3 * k + i + 7 * j) % len(gc.PHI)]) % 1.0) for i, x in enumerate(q)]
+
+
+def build_standard(desc, primitive="auto", retry=0):
     """(cell rows, fractional positions, numbers) of the crystal in the standard setting (conventional cell, or a
     primitive cell of it when that is needed to stay below 120 atoms)."""
     sg = desc["sg"]
     R, t = spgref.operations(sg)
     cell = gc.cellpar_to_cell(*spgref.lattice_cellpar(sg, desc["raw"]))
     pts, nums = [], []
-    for o in desc["orbits"]:
-        p = point_on(sg, o["letter"], o["q"])
+    for k, o in enumerate(desc["orbits"]):
+        p = point_on(sg, o["letter"], _shifted_q(o["q"], k, retry))
         ob = spgref.orbit(R, t, p)
         pts.append(ob)
         nums += [o["Z"]] * len(ob)
@@ -263,18 +270,21 @@ def make_atoms(cell, pos, nums):
 def conditioned(desc, rescale=True):
     """Standard-setting crystal with the near-collision rule of DESIGN 2.3 applied.
     Returns (cell, frac, nums, status) with status in {'ok','too-close','too-big'}."""
-    cell, frac, nums = build_standard(desc)
-    if len(nums) > 120:
-        return cell, frac, nums, "too-big"
-    vpa = abs(np.linalg.det(cell)) / len(nums)
-    if vpa < 12.0:                       # by construction: at least 12 A^3 per atom, so that density alone never rejects
-        cell = cell * (12.0 / vpa) ** (1.0 / 3.0)
-    d = min_distance(cell, frac)
-    if d < 0.5:
-        return cell, frac, nums, "too-close"
-    if d < 1.0 and rescale:
-        cell = cell * (1.0 / d)
-    return cell, frac, nums, "ok"
+    status = "too-close"
+    for retry in range(5):
+        cell, frac, nums = build_standard(desc, retry=retry)
+        if len(nums) > 120:
+            return cell, frac, nums, "too-big"
+        vpa = abs(np.linalg.det(cell)) / len(nums)
+        if vpa < 12.0:                       # by construction: at least 12 A^3 per atom, so that density alone never rejects
+            cell = cell * (12.0 / vpa) ** (1.0 / 3.0)
+        d = min_distance(cell, frac)
+        if d < 0.5:
+            continue                         # near-collision: try the next deterministic alternative of the free parameters
+        if d < 1.0 and rescale:
+            cell = cell * (1.0 / d)
+        return cell, frac, nums, "ok"
+    return cell, frac, nums, status
 
 
 def spglib_group(cell, pos_or_frac, nums, symprec, cartesian=True):
